@@ -1,12 +1,15 @@
 #!/bin/sh
-# usage: try_mutant.sh <patch.diff> <PROP> [tier]   -- applies a seeded change to /repo, runs the check, reverts.
+# usage: try_mutant.sh <patch.diff> <PROP> [tier]
+# Runs a check against a seeded change WITHOUT touching /repo: a scratch copy of /repo's working tree gets the patch and
+# is bind-mounted over /repo inside a private mount namespace; build output, evidence and replay files of the trial go
+# to a scratch directory (VERIF_TARGET_DIR / VERIF_OUT_DIR), so /verif's own evidence and build stay as they are.
 patch="$1"; prop="$2"; tier="${3:-quick}"
-cd /repo || exit 2
-git diff --quiet || { echo "/repo is dirty"; exit 2; }
-git apply "$patch" || { echo "patch does not apply"; exit 2; }
-cd /verif
-./check "$prop" --tier "$tier" > /tmp/try_mutant.out 2>&1; rc=$?
-git -C /repo checkout -- .
-grep -E "VIOLATION|rule=|KNOWN|HARNESS-ERROR|error(\[|:)" /tmp/try_mutant.out | head -8
+S="${TRY_SCRATCH:-/tmp/try-mutant}"
+mkdir -p "$S/target" "$S/out"
+rm -rf "$S/repo" "$S/out/replays" "$S/out/evidence"
+rsync -a --exclude target --exclude .git /repo/ "$S/repo/" || exit 2
+( cd "$S/repo" && git init -q . 2>/dev/null; git -C "$S/repo" apply "$patch" ) || { echo "patch does not apply"; exit 2; }
+rm -rf "$S/repo/.git"
+unshare -m sh -c "mount --bind '$S/repo' /repo && cd /verif && VERIF_TARGET_DIR='$S/target' VERIF_OUT_DIR='$S/out' ./check '$prop' --tier '$tier'" > "$S/out.log" 2>&1; rc=$?
+grep -E "VIOLATION|rule=|KNOWN|HARNESS-ERROR|error(\[|:)" "$S/out.log" | head -${TRY_LINES:-8}
 echo "exit=$rc"
-rm -f /verif/replays/*.json
